@@ -12,8 +12,8 @@ META = {
 
 S = portcheck.make(
     "C10", "Port.OracleC10",
-    [("c10", "debug", 300, 6000), ("c10", "release", 150, 3000), ("mix", "debug", 150, 3000), ("c10long", "release", 0, 3), ("warm", "debug", 4, 16), ("warm", "release", 4, 32)],
-    rule="histories: ports forced to master, then sync timers, transmit timestamps on a boundary lattice (second/ns carries, 2^63 ns end, sub-ns fractions), Delay_Req/Pdelay_Req with random headers incl. correction i64::MAX/MIN, announces that make the port leave master, plus the mixed generator; thorough adds 66000-event histories crossing the 16-bit wrap; warm = one emitting host call repeated 65520+ times unobserved (model iterates step), then an observed tail across the wrap of each of the four sequence id generators (quick and thorough). class = generator : ports : outcome : request kinds : port states visited; classes that never reach master (no 's6') are trivial",
+    [("c10", "debug", 300, 6000), ("c10", "release", 150, 3000), ("mix", "debug", 150, 3000), ("warm", "debug", 4, 48), ("warm", "release", 4, 64)],
+    rule="histories: ports forced to master, then sync timers, transmit timestamps on a boundary lattice (second/ns carries, 2^63 ns end, sub-ns fractions), Delay_Req/Pdelay_Req with random headers incl. correction i64::MAX/MIN, announces that make the port leave master, plus the mixed generator; the 16-bit wrap is crossed by warm; = one emitting host call repeated 65520+ times unobserved (model iterates step), then an observed tail across the wrap of each of the four sequence id generators (quick and thorough). class = generator : ports : outcome : request kinds : port states visited; classes that never reach master (no 's6') are trivial",
     trivial=(),
 )
 
